@@ -22,12 +22,25 @@ given the value, never the spelling):
   optional fifth field, how the object is made: p positional arguments | pt parse((start, end), absolute) |
             pl parse([start, end], absolute) | p1 parse((start,), absolute) | p3 parse((start, end, 'abs'|'rel')) |
             p3c the same with the contrary `absolute` argument (the tuple wins) | po parse(TimeRange(...), absolute)
+
+Caller-owned objects.  The specification is given the sequence of time VALUES; which Python objects carried them is
+not its business, so the range must behave the same whatever the caller does with HIS objects afterwards:
+  * one sequence in REUSE_SHARE (a function of the event list, so a replay does the same) is not run on a fresh object
+    per message but on ONE object per payload class that is changed in place between the calls - `m.p1_time += dt`,
+    `m.p1_time.seconds = x`, the attribute replaced (also by None), for sensor measurements the details fields or the
+    whole details object - the way a stream is synthesised or replayed with one message object; after every call the
+    object is changed again (its times moved on, made invalid, an invalid one made valid);
+  * every Timestamp handed to the constructor / parse() as a bound or p1_t0 and to make_absolute() is changed in place
+    after the call, the list given to parse() is overwritten; after intersect() the other range's p1_t0 is moved in
+    place (`other.p1_t0 += dt`, `.seconds = x`, an invalid one made valid), with in_place=False the receiver's too.
+  The verdicts on the following messages and the state are then judged as before.
 """
 import copy
 import functools
 import itertools
 import json
 import math
+import random
 import re
 import zlib
 
@@ -310,13 +323,160 @@ def describe(tok, variant=None):
 
 
 def messages_unmodified():
-    """Every object built so far still has the members of its token (is_in_range must not write to a message; the
-    range keeps a reference to the first P1 Timestamp as its origin)."""
+    """Every object built so far still has the members of its token (is_in_range must not write to a message - also
+    not through an origin it took from one)."""
     bad = []
     for (tok, k), (m, how) in _catalogue()['objects'].items():
         if members_of(m) != parse_tok(tok):
             bad.append((tok, k, how, members_of(m)))
     return bad
+
+
+# ---- caller-owned objects --------------------------------------------------------------------------------
+#
+# See the module text.  Nothing here is part of the oracle: the specification still gets the values.
+
+REUSE_SHARE = 8         # one sequence in REUSE_SHARE is run on one object per class changed in place
+MOVED_ON = 1000         # quarter seconds (250 s) a caller's Timestamp is moved on after it was handed over
+MADE_VALID = 777        # quarter seconds an invalid Timestamp of the caller is set to afterwards
+
+
+_TS = [None]         # the Timestamp class
+_held = {}           # class -> THE object of that class that the reuse-mode sequences are shown
+_built_checked = [0]
+
+
+def reuse_mode(base):
+    return (base >> 12) % REUSE_SHARE == 0
+
+
+def scribble_stamp(t, how):
+    """The caller goes on using HIS Timestamp object: `t += dt`, `t.seconds = x`, made invalid, an invalid one made valid."""
+    if type(t) is not _TS[0]:
+        if _TS[0] is None:
+            _TS[0] = _catalogue()['Timestamp']
+            return scribble_stamp(t, how)
+        return
+    if t.seconds != t.seconds:
+        t.seconds = MADE_VALID * Q
+    elif how % 3 == 0:
+        t += MOVED_ON * Q
+    elif how % 3 == 1:
+        t.seconds = math.nan
+    else:
+        t.seconds = MADE_VALID * Q if t.seconds != MADE_VALID * Q else 0.0
+
+
+def scribble_any(o, how):
+    """A Timestamp, or a range object of the caller (its origin moved in place: `other.p1_t0 += dt`, ...)."""
+    if hasattr(o, 'p1_t0'):
+        scribble_stamp(o.p1_t0, how)
+    elif isinstance(o, list):
+        for x in o:
+            scribble_stamp(x, how)
+        o[:] = [MADE_VALID * Q] * len(o)
+    else:
+        scribble_stamp(o, how)
+
+
+def how_of(data):
+    return zlib.crc32(json.dumps(data, sort_keys=True, default=str).encode())
+
+
+def caller_moves_on(ctx, sig, text, data, res, objs):
+    """After the call the caller changes the objects he passed; what the range is must not follow them."""
+    before = state_str(res)
+    how = how_of(data)
+    for k, o in enumerate(objs):
+        scribble_any(o, how + k)
+    after = state_str(res)
+    ctx.count('caller_objects_changed_after_call', len(objs))
+    if after != before:
+        ctx.violation(sig + '/follows-caller-object',
+                      '%s: afterwards the caller changed, in place, the objects he had passed (Timestamp `+= dt` / `.seconds = x`, '
+                      'the p1_t0 of the range he had passed); the result changed from %s to %s' % (text, before, after), data)
+
+
+def set_stamp(owner, attr, q, style):
+    """Give the Timestamp member the value q (quarter seconds / None) the way a caller who reuses the object does."""
+    cur = getattr(owner, attr)
+    if style == 0 or type(cur) is not _TS[0]:
+        setattr(owner, attr, _stamp(q))                    # m.p1_time = Timestamp(x)
+    elif style == 1 and q is not None and cur.seconds == cur.seconds:
+        cur += q * Q - cur.seconds                         # m.p1_time += dt
+        setattr(owner, attr, cur)
+    else:
+        cur.seconds = math.nan if q is None else q * Q     # m.p1_time.seconds = x
+
+
+def held_message(pool, tok, v, rng):
+    """THE object of its class in `pool` (made on first use), changed in place to the members the token describes."""
+    c = _catalogue()
+    Timestamp = c['Timestamp']
+    kinds = c['classes']
+    d = parse_tok(tok)
+    if d[0] == 'raw':
+        return [b'\x2e\x31\x00\x00', None][v % 2]
+    if d[0] == 'meas':
+        cls = kinds['meas'][v % len(kinds['meas'])]
+    elif d[1] == 'A' and d[2] == 'A':
+        k = v % (len(kinds['none']) + len(kinds['p1']))
+        cls = kinds['none'][k] if k < len(kinds['none']) else kinds['p1'][v % len(kinds['p1'])]
+    elif d[1] == 'A':
+        cls = kinds['sys'][v % len(kinds['sys'])]
+    else:
+        cls = kinds['p1'][v % len(kinds['p1'])]
+    m = pool.get(cls)
+    if m is None:
+        m = _held.get(cls)
+        if m is None:
+            m = _held[cls] = cls()
+            if isinstance(vars(m).get('gps_time'), Timestamp):
+                m.gps_time = Timestamp(OTHER_TIME)
+        else:       # first use in this sequence: its times as in a new object (so that a replay changes it the same way)
+            members = vars(m)
+            if d[0] == 'meas':
+                m.details.measurement_time.seconds = math.nan
+                m.details.p1_time.seconds = math.nan
+            elif 'p1_time' in members:
+                m.p1_time = Timestamp()
+                members.pop('system_time_ns', None)
+        pool[cls] = m
+    members = vars(m)
+    if d[0] == 'meas':
+        if rng.random() < 0.1:
+            m.details = type(m.details)()                  # the whole details object replaced
+        dd = m.details
+        set_stamp(dd, 'measurement_time', d[2], rng.randrange(3))
+        dd.measurement_time_source = c['Src'](d[1])
+        set_stamp(dd, 'p1_time', d[3], rng.randrange(3))
+    elif 'p1_time' in members:
+        if d[1] == 'A':
+            m.p1_time = None
+        else:
+            set_stamp(m, 'p1_time', d[1], rng.randrange(3))
+        if d[2] != 'A':
+            m.system_time_ns = d[2]
+        elif 'system_time_ns' in members:
+            del m.system_time_ns
+    elif d[2] != 'A':
+        m.system_time_ns = d[2]
+    if _built_checked[0] < 100000:      # the harness's own work, checked on the first 100000 (all kinds and styles many times over)
+        _built_checked[0] += 1
+        if members_of(m) != d:
+            raise fv.InfraError('harness changed a %s to the members %r for token %s' % (cls.__name__, members_of(m), tok))
+    return m
+
+
+def scribble_message(m, rng):
+    """After the call the caller goes on with his message object."""
+    v = vars(m)
+    dd = v.get('details')
+    if dd is not None and hasattr(dd, 'measurement_time_source'):
+        scribble_stamp(dd.measurement_time, rng.randrange(3))
+        scribble_stamp(dd.p1_time, rng.randrange(3))
+    else:
+        scribble_stamp(v.get('p1_time'), rng.randrange(3))
 
 
 _BOUND = re.compile(r'^(T|i|g|h|j|)(-?\d+|inf)$')
@@ -437,7 +597,16 @@ def make_range(ctor):
     s, e, a, z, form = fields(ctor)
     Timestamp = _messages()['Timestamp']
     sv, ev, av, zv = [Timestamp(float(x)) if isinstance(x, Timestamp) else x for x in ctor_args(ctor)]   # never share a Timestamp
+    passed = [x for x in (sv, ev, zv) if type(x) is Timestamp]
+    r = _make_range(ctor, TimeRange, s, e, a, z, form, sv, ev, av, zv, passed)
+    if passed:
+        how = zlib.crc32(ctor.encode())
+        for k, o in enumerate(passed):      # the caller's Timestamps / list live on and change
+            scribble_any(o, how + k)
+    return r
 
+
+def _make_range(ctor, TimeRange, s, e, a, z, form, sv, ev, av, zv, passed):
     def given(x):
         return None if x is _OMIT else x
     if form == '':
@@ -457,7 +626,9 @@ def make_range(ctor):
     if form == 'pt':
         return TimeRange.parse((given(sv), given(ev)), **akw)
     if form == 'pl':
-        return TimeRange.parse([given(sv), given(ev)], **akw)
+        lst = [given(sv), given(ev)]
+        passed.append(lst)
+        return TimeRange.parse(lst, **akw)
     if form == 'p1':
         if given(ev) is not None:
             raise fv.InfraError('p1 form with an end: %s' % ctor)
@@ -547,17 +718,30 @@ def check_timestamps(tok, res):
     return None
 
 
-def run_real(r, events):
-    """Apply events to the real object. Returns (string of 0/1/r, error or None)."""
+_follow = [None]
+
+
+def run_real(r, events, lenient=False):
+    """Apply events to the real object. Returns (string of 0/1/r, error or None).  One sequence in REUSE_SHARE is run
+    on one object per class changed in place (see the module text); when what the range is follows the caller's later
+    changes to his message object, that is an error (with lenient=True it is left in _follow[0] for the caller, who
+    judges the verdicts first)."""
     out = []
     base = variant_base(events)
+    reuse = reuse_mode(base)
+    if reuse:
+        rng, pool = random.Random(base), {}
+    _follow[0] = None
     for i, ev in enumerate(events):
         if ev == 'R':
             r.restart()
             out.append('r')
             continue
         ret_ts, tok, k = split_ev(ev)
-        m = message_for(tok, base + i if k is None else k)
+        if reuse:
+            m = held_message(pool, tok, base if k is None else k, rng)
+        else:
+            m = message_for(tok, base + i if k is None else k)
         try:
             res = r.is_in_range(m, return_timestamps=True) if ret_ts else r.is_in_range(m)
         except Exception as e:  # noqa
@@ -570,16 +754,41 @@ def run_real(r, events):
         if not isinstance(res, bool):
             return ''.join(out), 'is_in_range returned %r' % (res,)
         out.append('1' if res else '0')
+        if reuse and hasattr(m, '__dict__'):
+            if members_of(m) != parse_tok(tok):
+                return ''.join(out), 'modifies-message: is_in_range changed the %s it was shown (message %d): members %r, now %r' % (
+                    type(m).__name__, i, parse_tok(tok), members_of(m))
+            t0 = r.p1_t0
+            t0v = t0.seconds
+            scribble_message(m, rng)
+            if _follow[0] is None and (r.p1_t0 is not t0 or (t0.seconds != t0v and (t0.seconds == t0.seconds or t0v == t0v))):
+                _follow[0] = ('caller-object: after is_in_range() on message %d (a %s; verdicts so far %s) the caller changed the times of '
+                              'his message object in place: the p1_t0 of the range changed from %s to %s (quarter seconds), now %s' % (
+                                  i, type(m).__name__, ''.join(out), qs(t0v), qs(r.p1_t0.seconds), state_str(r)))
+    if _follow[0] is not None and not lenient:
+        return ''.join(out), _follow[0]
     return ''.join(out), None
 
 
 def err_sig(err):
-    return 'C13/is_in_range/returned-timestamps' if err.startswith('return_timestamps=True: ') else 'C13/is_in_range/raised'
+    if err.startswith('return_timestamps=True: '):
+        return 'C13/is_in_range/returned-timestamps'
+    if err.startswith('modifies-message: '):
+        return 'C13/is_in_range/modifies-message'
+    if err.startswith('caller-object: '):
+        return 'C13/is_in_range/follows-caller-object'
+    return 'C13/is_in_range/raised'
+
+
+REUSE_TEXT = ('the messages are ONE object per payload class whose times the caller changes in place between the calls (p1_time += dt / '
+              'p1_time.seconds = x / the attribute replaced; for measurements the details fields) and again after every call')
 
 
 def objects_text(events):
     """The real objects a sequence was run on, for the report."""
     base = variant_base(events)
+    if reuse_mode(base):
+        return REUSE_TEXT
     return '; '.join('%s = %s' % (bare(ev), describe(bare(ev), base + i if split_ev(ev)[2] is None else split_ev(ev)[2]))
                      for i, ev in enumerate(events) if ev != 'R' and bare(ev)[0] in 'mp')
 
@@ -765,19 +974,22 @@ def seq_case(ctx, batch, ctor, events):
     except Exception as e:  # noqa
         ctx.violation('C13/constructor-raised', 'TimeRange(%s) raised %s' % (ctor, e), {'kind': 'seq', 'ctor': ctor, 'events': events})
         return
-    bits, err = run_real(r, events)
+    bits, err = run_real(r, events, lenient=True)
+    follow = _follow[0]
     data = {'kind': 'seq', 'ctor': ctor, 'events': events}
     if err is not None:
         ctx.violation(err_sig(err), 'TimeRange(%s) on %s: %s' % (ctor, events, err), data)
         return
+    if reuse_mode(variant_base(events)):
+        ctx.count('sequences_on_one_object_per_class_changed_in_place')
     st = state_str(r)
     idx = [batch.ask('trange %s %s' % (dctor(ctor), ','.join(dev(e) for e in events) or '='))]
     idx += [batch.ask(l) for l in spec_lines(ctor, events)]
-    batch.todo.append((judge_seq, idx, (data, bits, st)))
+    batch.todo.append((judge_seq, idx, (data, bits, st, follow)))
 
 
 def judge_seq(ctx, outs, payload):
-    data, bits, st = payload
+    data, bits, st, follow = payload
     ctor, events = data['ctor'], data['events']
     model = outs[0]
     if model != bits + '|' + st:
@@ -797,6 +1009,8 @@ def judge_seq(ctx, outs, payload):
         objs = objects_text(events)
         ctx.violation(sig, 'TimeRange(%s) on [%s] gives %s, the interval semantics give %s (first difference at message %d; '
                       'times in quarter seconds)%s' % (ctor, ','.join(events), bits, want, k, '; with ' + objs if objs else ''), data)
+    elif follow is not None:
+        ctx.violation(err_sig(follow), 'TimeRange(%s) on [%s]: %s' % (ctor, ','.join(events), follow), data)
 
 
 # ---- intersect / make_absolute -----------------------------------------------------------------------------
@@ -856,6 +1070,8 @@ def inter_case(ctx, batch, ca, cb, in_place, seqs):
             ctx.violation('C13/intersect/in-place-returns-copy', 'in_place=True did not return self', data)
         if not in_place and (res is a or state_str(a) != a_before):
             ctx.violation('C13/intersect/copy-modifies-self', 'in_place=False changed self from %s to %s' % (a_before, state_str(a)), data)
+        caller_moves_on(ctx, 'C13/intersect', 'TimeRange(%s).intersect(TimeRange(%s), in_place=%s)' % (ca, cb, in_place), data, res,
+                        [b] + ([a] if res is not a else []))
     batch.todo.append((judge_state, [batch.ask('trinter %s %s' % (dctor(ca), dctor(cb)))], ('intersect', data, got)))
     ctx.case('inter %s %s' % (ca, cb), nontrivial=res is not None and res._range_specified)
     if res is None:
@@ -897,8 +1113,9 @@ def mkabs_case(ctx, batch, ctor, p, in_place, seqs):
     z = t0_of(ctor)
     if z is None and p not in ('N', 'TX'):
         z = int(p)
+    pobj = t0_arg(p)
     try:
-        res = r.make_absolute(p1_t0=t0_arg(p), in_place=in_place)
+        res = r.make_absolute(p1_t0=pobj, in_place=in_place)
         got = state_str(res)
     except ValueError:
         res, got = None, 'err:ValueError'
@@ -920,6 +1137,8 @@ def mkabs_case(ctx, batch, ctor, p, in_place, seqs):
     if not res.absolute:
         ctx.violation('C13/make_absolute/result-not-absolute', 'TimeRange(%s).make_absolute(%s) = %s is still relative' % (ctor, p, got), data)
         return
+    caller_moves_on(ctx, 'C13/make_absolute', 'TimeRange(%s).make_absolute(%s, in_place=%s)' % (ctor, p, in_place), data, res,
+                    [pobj] + ([r] if res is not r else []))
     for seq in seqs:
         f = first_p1(seq)
         if not absolute and (t0_of(ctor) if t0_of(ctor) is not None else f) != z:
@@ -1072,6 +1291,7 @@ def script_case(ctx, batch, d):
         if R is None:
             batch.todo.append((judge_state, [batch.ask(mline)], ('script', d, 'err:ValueError')))
             return
+        caller_moves_on(ctx, 'C13/script/intersect', text, d, R, [other] + ([recv] if R is not recv else []))
         sig = 'C13/script/intersect/accepted-set-differs/' + kinds
         identity = io[0] == 'N' and io[1] == 'N'
     else:
@@ -1080,8 +1300,9 @@ def script_case(ctx, batch, d):
         if op == 'mk':
             pv = None if d['p'] in ('N', 'TX') else int(d['p'])
             must_raise = (not ia[2]) and oa is None and pv is None
+            pobj = t0_arg(d['p'])
             try:
-                R = A.make_absolute(p1_t0=t0_arg(d['p']), in_place=d['in_place'])
+                R = A.make_absolute(p1_t0=pobj, in_place=d['in_place'])
             except ValueError:
                 R = None
             except Exception as e:  # noqa
@@ -1106,6 +1327,7 @@ def script_case(ctx, batch, d):
                 return
             if o_r is None:
                 o_r = pv
+            caller_moves_on(ctx, 'C13/script/make_absolute', text, d, R, [pobj] + ([A] if R is not A else []))
             sig = 'C13/script/make_absolute/accepted-set-differs'
         else:
             R = copy.copy(A) if op == 'copy' else copy.deepcopy(A)
@@ -1744,7 +1966,11 @@ def check(ctx):
         'of {absolute, relative} x {t0 supplied, not} x {shown nothing, untimed only, a P1 time} for both sides; expected: error exactly '
         'when neither side knows an origin (supplied t0 or first P1 time shown), accepted set of the result from the interval spec with '
         'the origins the ranges know. Compared per case: model vs TimeRange (verdict string and all seven attributes; for operation '
-        'sequences the whole script is run on the model), TimeRange vs the Lean interval spec. non-trivial = verdicts not constant / '
+        'sequences the whole script is run on the model), TimeRange vs the Lean interval spec. Caller-owned objects: one sequence in 8 (in every '
+        'stage that shows messages) is run on ONE object per payload class changed in place between the calls (p1_time += dt / .seconds = x / '
+        'attribute replaced, also by None / details fields or the whole details object) and changed again after every call; every Timestamp '
+        'passed to the constructor, parse() and make_absolute() is changed in place after the call, after intersect() the p1_t0 of the other '
+        'range (with in_place=False also of the receiver) - verdicts and state are judged as before, on the values. non-trivial = verdicts not constant / '
         'range specified; distinct = distinct (configuration, event list)')
     ctx.assumptions += [
         'times are multiples of 0.25 s below 2^20, on which the float comparisons and the subtraction of t0 are exact; the Lean model '
